@@ -39,7 +39,11 @@ func ruleC16(c *Ctx) {
 		return
 	}
 	c.useFn(parse)
-	tb := newTB(parse)
+	view := newFamView(parse)
+	for _, g := range view.fns {
+		c.useFn(g)
+	}
+	tb := view.tb[parse]
 	// the current line = whatever is tested for the "<1>" tag (found by role, not by how lines are produced)
 	line := ""
 	eachInstr(parse, func(i ssa.Instruction) {
@@ -50,10 +54,31 @@ func ruleC16(c *Ctx) {
 		}
 	})
 	if line == "" {
-		c.bad("FIELDMAP", "<1> test", parse.Pos(), "no test of the current line for the \"<1>\" tag found (unrecognised shape)")
+		c.undecided("FIELDMAP", "<1> test", parse.Pos(), "no test of the current line for the \"<1>\" tag found")
 		return
 	}
 	payload := "slice(" + line + ", const[3], nil)"
+	// payloadState judges how a tag's payload is cut out of the line.
+	payloadState := func(t *Term, tag string) (int, string) {
+		switch {
+		case t.String() == payload:
+			return holds, ""
+		case t.isCall("strings.TrimPrefix") && t.Args[0].String() == line:
+			if t.Args[1].isConst(strconvQuote(tag)) {
+				return holds, ""
+			}
+			if t.Args[1].Op == "const" {
+				return broken, "the payload of " + tag + " is cut with TrimPrefix(line, " + t.Args[1].Name + ")"
+			}
+		case (t.isCall("strings.TrimLeft") || t.isCall("strings.Trim") || t.isCall("strings.TrimRight")) && t.Args[0].String() == line && t.Args[1].Op == "const":
+			return broken, "the payload of " + tag + " is cut with " + t.Name + "(line, " + t.Args[1].Name + "), which strips a SET of characters, not the tag: a payload that begins with '<', '>' or the tag's digit (e.g. the reference list \"1,2\" or a name starting with a digit) loses its first characters"
+		case t.Op == "slice" && len(t.Args) == 3 && t.Args[0].String() == line && t.Args[2].Op == "nil":
+			if k, ok := t.Args[1].constInt(); ok && k != 3 {
+				return broken, fmt.Sprintf("the payload of %s is line[%d:]; the tag is 3 characters long", tag, k)
+			}
+		}
+		return unknown, "the payload of " + tag + " is " + short(t.String())
+	}
 	// the accumulator: the local Enzyme whose value is stored into the result map
 	var enz *ssa.Alloc
 	var result ssa.Value
@@ -70,7 +95,7 @@ func ruleC16(c *Ctx) {
 		}
 	})
 	if nEntryUpd != 1 || enz == nil {
-		c.bad("FIELDMAP", "entry store", parse.Pos(), fmt.Sprintf("%d stores into the result map, want 1 storing the accumulated record (unrecognised shape)", nEntryUpd))
+		c.undecided("FIELDMAP", "entry store", parse.Pos(), fmt.Sprintf("%d stores into the result map, the model needs 1 storing the accumulated record", nEntryUpd))
 		return
 	}
 	tagOf := func(b *ssa.BasicBlock) (string, string) {
@@ -92,6 +117,7 @@ func ruleC16(c *Ctx) {
 	}
 	seenTag := map[string]bool{}
 	tb.buildStores()
+	var supStore *ssa.Store
 	for _, st := range tb.stores[enz] {
 		if st.Parent() != parse {
 			continue
@@ -103,36 +129,59 @@ func ruleC16(c *Ctx) {
 		fieldName := strings.TrimPrefix(p[0], ".")
 		tag, pc := tagOf(st.Block())
 		if tag == "" {
-			c.bad("FIELDMAP", "store to "+fieldName, st.Pos(), "field "+fieldName+" is stored outside a single <n> tag case: "+short(pc))
+			c.undecided("FIELDMAP", "store to "+fieldName, st.Pos(), "field "+fieldName+" is stored outside a single <n> tag case: "+short(pc))
 			continue
 		}
 		seenTag[tag] = true
 		val := tb.T(st.Val)
-		valOK := val.String() == payload
-		switch fieldName {
-		case "Isoschizomers":
-			valOK = val.String() == "call[strings.Split]("+payload+`, const[","])`
-		case "CommercialAvailability":
-			valOK = true // judged by TERM below
+		stV, whyV := holds, ""
+		switch {
+		case rebaseTagField[tag] != fieldName:
+			stV, whyV = broken, fmt.Sprintf("the %s case stores into field %s; format 31 assigns %s to %s", tag, fieldName, tag, rebaseTagField[tag])
+		case fieldName == "Isoschizomers":
+			if val.isCall("strings.Split") && len(val.Args) == 2 {
+				stV, whyV = payloadState(val.Args[0], tag)
+				if sep, ok := val.Args[1].constStr(); stV == holds && (!ok || sep != ",") {
+					stV, whyV = unknown, "isoschizomers split on "+val.Args[1].String()
+					if ok {
+						stV, whyV = broken, fmt.Sprintf("isoschizomers are split on %q; the format separates them with \",\"", sep)
+					}
+				}
+			} else {
+				stV, whyV = unknown, "isoschizomers are "+short(val.String())
+			}
+		case fieldName == "CommercialAvailability":
+			supStore = st // judged by TERM below
+		default:
+			stV, whyV = payloadState(val, tag)
 		}
-		c.check(rebaseTagField[tag] == fieldName && valOK, "FIELDMAP", tag+"->"+rebaseTagField[tag], st.Pos(),
-			"tag "+tag+" stores line[3:] into "+fieldName,
-			fmt.Sprintf("tag %s stores %s into field %s; format 31 assigns %s to %s with payload line[3:]", tag, short(val.String()), fieldName, tag, rebaseTagField[tag]))
+		c.judge(stV, "FIELDMAP", tag+"->"+rebaseTagField[tag], st.Pos(), "tag "+tag+" stores line[3:] into "+fieldName, whyV)
 	}
 	for tg := range rebaseTagField {
 		if !seenTag[tg] {
-			c.bad("FIELDMAP", tg+"->"+rebaseTagField[tg], parse.Pos(), "tag "+tg+" has no case storing into the record")
+			c.undecided("FIELDMAP", tg+"->"+rebaseTagField[tg], parse.Pos(), "no case of tag "+tg+" storing into the record was found")
 		}
 	}
-	// entry stored in the <8> case under enzyme.Name, accumulator reset right after
+	// entry stored in the <8> case under enzyme.Name
 	tag, _ := tagOf(entryUpd.Block())
 	key := tb.T(entryUpd.Key)
-	keyOK := false
+	stK, whyK := unknown, "the record is stored under "+short(key.String())
 	if ld, ok := entryUpd.Key.(*ssa.UnOp); ok {
-		if a, p, ok := rootAlloc(ld.X); ok && a == enz && len(p) == 1 && p[0] == ".Name" {
-			keyOK = true
+		if a, p, ok := rootAlloc(ld.X); ok && a == enz && len(p) == 1 {
+			if p[0] == ".Name" {
+				stK = holds
+			} else {
+				stK, whyK = broken, "the record is stored under its "+strings.TrimPrefix(p[0], ".")+", not under the enzyme name"
+			}
 		}
 	}
+	if stK == holds && tag != "<8>" {
+		stK, whyK = unknown, "the record is stored outside a single tag case"
+		if tag != "" {
+			stK, whyK = broken, "the record is stored when "+tag+" is read; fields that follow it (up to <8>, the record terminator) are lost or attributed to the next enzyme"
+		}
+	}
+	c.judge(stK, "FIELDMAP", "entry stored at <8> under Name", entryUpd.Pos(), "enzymeMap[enzyme.Name] = enzyme in the <8> case", whyK)
 	var reset *ssa.Store
 	for _, st := range tb.stores[enz] {
 		if _, p, _ := rootAlloc(st.Addr); len(p) == 0 && st.Block() == entryUpd.Block() && instrIndex(st) > instrIndex(entryUpd) {
@@ -141,85 +190,85 @@ func ruleC16(c *Ctx) {
 			}
 		}
 	}
-	// References must be stored before the entry is copied into the map
-	c.check(tag == "<8>" && keyOK, "FIELDMAP", "entry stored at <8> under Name", entryUpd.Pos(), "enzymeMap[enzyme.Name] = enzyme in the <8> case", "the record is stored under "+short(key.String())+" in the case of tag "+tag+"; want enzyme.Name at <8> (the record terminator)")
-	c.check(reset != nil, "FIELDMAP", "accumulator reset after <8>", entryUpd.Pos(), "enzyme = Enzyme{} follows the store", "the accumulator is not reset to the zero Enzyme right after the record is stored: fields leak into the next record")
+	c.checkShape(reset != nil, "FIELDMAP", "accumulator reset after <8>", entryUpd.Pos(), "enzyme = Enzyme{} follows the store", "no reset of the accumulator to the zero Enzyme right after the record is stored was found")
 	// result returned
-	rt, _, ok := singleReturnTerm(parse, 0)
-	c.check(ok && rt.V == result, "FIELDMAP", "returns the filled map", parse.Pos(), "Parse returns the map the records were stored in", "Parse does not return the map it fills")
+	okRet := false
+	for _, a := range resultAlts(tb, parse, 0) {
+		okRet = a.T.V == result
+	}
+	c.checkShape(okRet, "FIELDMAP", "returns the filled map", parse.Pos(), "Parse returns the map the records were stored in", "Parse does not visibly return the map it fills")
 
 	// TERM <7>
 	var sup *ssa.MapUpdate
-	eachInstr(parse, func(i ssa.Instruction) {
+	var supFn *ssa.Function
+	view.each(func(g *ssa.Function, i ssa.Instruction) {
 		if mu, ok := i.(*ssa.MapUpdate); ok && tname(mu.Map.Type()) == "map[rune]string" {
-			sup = mu
+			sup, supFn = mu, g
 		}
 	})
-	okTerm := false
-	whyTerm := "no store into CommercialAvailability found"
-	for _, st := range tb.stores[enz] {
-		if _, p, _ := rootAlloc(st.Addr); len(p) == 1 && p[0] == ".CommercialAvailability" {
-			v := tb.T(st.Val)
-			okTerm = true
-			want := "extract[2](next(range(" + payload + ")))"
-			sites := topAppendSites(v)
-			if len(sites) != 1 {
-				okTerm = false
-				whyTerm = fmt.Sprintf("%d append sites feed the supplier list, want 1", len(sites))
-			}
-			for _, stt := range sites {
-				el := stt.Elem
-				if !(el.Op == "lookup" && el.Args[1].String() == want && sup != nil && el.Args[0].V == sup.Map) {
-					okTerm = false
-					whyTerm = "appended element is " + short(el.String()) + "; want supplierMap[rune of line[3:]]"
+	stT, whyT := unknown, "no store into CommercialAvailability found"
+	if supStore != nil {
+		v := tb.T(supStore.Val)
+		sites := topAppendSites(v)
+		switch {
+		case len(sites) != 1:
+			whyT = fmt.Sprintf("%d append sites feed the supplier list, the model needs 1", len(sites))
+		default:
+			el := sites[0].Elem
+			stT = holds
+			if !(el.Op == "lookup" && sup != nil && (el.Args[0].V == sup.Map || el.Args[0].String() == view.T(supFn, sup.Map).String())) {
+				stT, whyT = unknown, "the appended element is "+short(el.String())
+			} else {
+				k := el.Args[1]
+				if k.Op == "extract" && k.Name == "2" && k.Args[0].Op == "next" && k.Args[0].Args[0].Op == "range" {
+					_, tg := "", "<7>"
+					stT, whyT = payloadState(k.Args[0].Args[0].Args[0], tg)
+				} else {
+					stT, whyT = unknown, "suppliers are looked up under "+short(k.String())
 				}
 			}
-			for _, l := range phiLeaves(v) {
-				switch {
-				case l.Op == "collect" || l.isCall("builtin:append"):
-				case l.Op == "const" && strings.HasPrefix(l.Name, "nil:"):
-				default:
-					okTerm = false
-					whyTerm = "the supplier list starts from " + short(l.String()) + " rather than a fresh nil slice: records share a backing array and a later record overwrites an earlier record's suppliers"
+			if stT == holds {
+				for _, l := range phiLeaves(v) {
+					switch {
+					case l.Op == "collect" || l.isCall("builtin:append"):
+					case l.Op == "const" && strings.HasPrefix(l.Name, "nil:"):
+					case strings.Contains(l.String(), "field[CommercialAvailability]") || l.Op == "slice":
+						stT, whyT = broken, "the supplier list starts from "+short(l.String())+" rather than a fresh slice: records share a backing array and a later record overwrites an earlier record's suppliers"
+					default:
+						stT, whyT = unknown, "the supplier list starts from "+short(l.String())
+					}
 				}
 			}
 		}
 	}
-	c.check(okTerm, "TERM", "<7>: suppliers = [supplierMap[r] for r in line[3:]], fresh per record", parse.Pos(), "one lookup per code letter appended in order onto a nil slice", whyTerm)
+	c.judge(stT, "TERM", "<7>: suppliers = [supplierMap[r] for r in line[3:]], fresh per record", parse.Pos(), "one lookup per code letter appended in order onto a fresh slice", whyT)
 
 	// INDENT + TABLE-START
 	if sup == nil {
-		c.bad("INDENT", "supplier table", parse.Pos(), "no map[rune]string supplier table is filled (unrecognised shape)")
+		c.undecided("INDENT", "supplier table", parse.Pos(), "no map[rune]string supplier table is filled")
 	} else {
-		k := tb.T(sup.Key)
+		k := view.T(supFn, sup.Key)
 		var trims []*Term
 		k.walk(func(x *Term) {
-			if x.Op == "call" && (x.Name == "strings.TrimLeft" || x.Name == "strings.Trim" || x.Name == "strings.TrimSpace" || x.Name == "strings.TrimPrefix") {
+			if x.Op == "call" && strings.HasPrefix(x.Name, "strings.Trim") {
 				trims = append(trims, x)
 			}
 		})
-		pc := pathCond(tb, parse.Blocks[0], sup.Block())
+		pc := view.cond(supFn, sup.Block())
 		var pcTrims []*Term
-		var walkC func(x *Cond)
 		var counterAtoms []*Term
-		walkC = func(x *Cond) {
-			if x.Op == "atom" {
-				x.Atom.walk(func(t *Term) {
-					if t.Op == "call" && strings.HasPrefix(t.Name, "strings.Trim") {
-						pcTrims = append(pcTrims, t)
-					}
-				})
-				if x.Atom.isBin("<") || x.Atom.isBin("<=") {
-					if _, isC := x.Atom.Args[0].constInt(); isC && strings.Contains(x.Atom.Args[1].String(), "phi") && !strings.Contains(x.Atom.Args[1].String(), "len") {
-						counterAtoms = append(counterAtoms, x.Atom)
-					}
+		for _, a := range pc.atoms() {
+			a.Atom.walk(func(t *Term) {
+				if t.Op == "call" && strings.HasPrefix(t.Name, "strings.Trim") {
+					pcTrims = append(pcTrims, t)
+				}
+			})
+			if a.Atom.isBin("<") || a.Atom.isBin("<=") {
+				if _, isC := a.Atom.Args[0].constInt(); isC && strings.Contains(a.Atom.Args[1].String(), "phi") && !strings.Contains(a.Atom.Args[1].String(), "len") {
+					counterAtoms = append(counterAtoms, a.Atom)
 				}
 			}
-			for _, a := range x.Args {
-				walkC(a)
-			}
 		}
-		walkC(pc)
 		cutOK := func(t *Term) (bool, string) {
 			if t.Name == "strings.TrimSpace" {
 				return true, "TrimSpace"
@@ -232,19 +281,22 @@ func ruleC16(c *Ctx) {
 		}
 		for i, set := range [][]*Term{trims, pcTrims} {
 			name := []string{"code letter read after trimming spaces and tabs", "blank test trims spaces and tabs"}[i]
-			good := len(set) > 0
-			why := "no trim applied before the code letter is read"
+			st, why := holds, ""
+			if len(set) == 0 {
+				st, why = unknown, "no trim of the supplier line found on this path"
+			}
 			for _, t := range set {
 				if ok, cs := cutOK(t); !ok {
-					good = false
-					why = "supplier lines are trimmed with cutset " + cs + ": the distributed file indents with spaces, so the code letter read is ' ' and every supplier decodes to \"\""
+					st, why = broken, "supplier lines are trimmed with cutset "+cs+": the distributed file indents with spaces (generated ones with tabs), so the code letter read is white space and suppliers decode to \"\""
+					if cs == "?" {
+						st = unknown
+					}
 				}
 			}
-			c.check(good, "INDENT", name, sup.Pos(), "cutset contains both ' ' and '\\t'", why)
+			c.judge(st, "INDENT", name, sup.Pos(), "cutset contains both ' ' and '\\t'", why)
 		}
-		goodStart := len(counterAtoms) == 1
-		whyS := fmt.Sprintf("%d line-counter guards found, want 1", len(counterAtoms))
-		if goodStart {
+		st, whyS := unknown, fmt.Sprintf("%d line-counter guards found, the model needs 1", len(counterAtoms))
+		if len(counterAtoms) == 1 {
 			a := counterAtoms[0]
 			lo, _ := a.Args[0].constInt()
 			_, k := a.Args[1].linear()
@@ -253,12 +305,28 @@ func ruleC16(c *Ctx) {
 			if a.isBin("<=") {
 				skipped--
 			}
+			st = holds
 			if skipped != 2 {
-				goodStart = false
-				whyS = fmt.Sprintf("the first %d lines from the header line are skipped; the format has 2 (the header and one blank line), so the first supplier line is lost", skipped)
+				st, whyS = broken, fmt.Sprintf("the first %d lines from the header line are skipped; the format has 2 (the header and one blank line), so supplier rows are lost or the blank line is read as a row", skipped)
+			}
+			// the counter advances on every line of the table, blank ones included
+			base, _ := a.Args[1].linear()
+			if base == nil {
+				base = a.Args[1]
+			}
+			if ph, ok := stripConv(base).V.(*ssa.Phi); ok && st == holds {
+				for _, cb := range additive(tb, ph) {
+					if cb.At == nil || !cb.T.isConst("1") {
+						continue
+					}
+					ipc := pathCond(tb, parse.Blocks[0], cb.At.Block())
+					if v, known := classEval(ipc, line, lineClass{"blank", ""}); known && !v {
+						st, whyS = broken, "blank lines are skipped before the supplier-table line counter advances: the blank line after the heading is not counted, so the fixed two-line offset swallows the first supplier row"
+					}
+				}
 			}
 		}
-		c.check(goodStart, "INDENT", "TABLE-START: header + blank line skipped", sup.Pos(), "supplier lines are read from the 3rd line after (and including) the header", whyS)
+		c.judge(st, "INDENT", "TABLE-START: header + blank line skipped", sup.Pos(), "supplier lines are read from the 3rd line after (and including) the header; every line of the table is counted", whyS)
 	}
 
 	// TAGS
@@ -271,23 +339,32 @@ func ruleC16(c *Ctx) {
 	if rd := w.fn("io/rebase", "Read"); rd != nil {
 		c.useFn(rd)
 		rtb := newTB(rd)
-		good := false
-		var why []string
+		st, why := unknown, "no success return found"
 		for _, r := range returnsOf(rd) {
+			if len(r.Results) != 2 {
+				continue
+			}
 			v, e := rtb.T(r.Results[0]), rtb.T(r.Results[1])
-			pc := pathCond(rtb, rd.Blocks[0], r.Block()).String()
-			if e.Op == "const" {
-				if v.String() == "call[poly/io/rebase.Parse](extract[0](call[os.ReadFile](param[0])))" && strings.Contains(pc, "!(binop[!=](const[nil:error]") {
-					good = true
-				} else {
-					why = append(why, "success return is "+short(v.String()))
+			pc := pathCond(rtb, rd.Blocks[0], r.Block())
+			errAtom := "binop[==](const[nil:error], extract[1](call[os.ReadFile](param[0])))"
+			switch {
+			case e.Op == "const" && pc.implies(errAtom, true):
+				st, why = broken, "when the file cannot be read, Read returns no error"
+			case e.Op == "const":
+				want := "call[poly/io/rebase.Parse](extract[0](call[os.ReadFile](param[0])))"
+				if v.String() == want {
+					if st != broken {
+						st = holds
+					}
+				} else if st != broken {
+					st, why = stateOf(false, vocabOf(want), v), "the success return is "+short(v.String())
+					if st == broken && !localDiff(v, want) {
+						st = unknown
+					}
 				}
-			} else if e.String() != "extract[1](call[os.ReadFile](param[0]))" {
-				why = append(why, "error return does not propagate the read error")
-				good = false
 			}
 		}
-		c.check(good && len(why) == 0, "WRAPPERS", "Read", rd.Pos(), "Read returns (Parse(file), nil) or the read error", strings.Join(why, "; "))
+		c.judge(st, "WRAPPERS", "Read", rd.Pos(), "Read returns (Parse(file), nil) or the read error", why)
 	} else {
 		c.missing("WRAPPERS", "Read", "rebase.Read")
 	}
